@@ -220,6 +220,7 @@ pub fn generate_c13(rng: &mut Rng, thorough: bool) -> Vec<String> {
         for _ in 0..3 {
             let ins = rand_instant(rng, &ts);
             v.push(format!("tz_wall {z} {ins}"));
+            v.push(format!("tz_conv {z} {ins}"));
         }
         if let Some(zz) = z.strip_prefix("z:") {
             // the midnights around the local images of each transition: a gap or an overlap may straddle one
@@ -454,6 +455,22 @@ pub fn eval(t: &[&str]) -> Option<String> {
                     z.year_with_provider(&p)?, z.month_with_provider(&p)?, z.day_with_provider(&p)?, z.hour_with_provider(&p)?,
                     z.minute_with_provider(&p)?, z.second_with_provider(&p)?, z.millisecond_with_provider(&p)?,
                     z.microsecond_with_provider(&p)?, z.nanosecond_with_provider(&p)?, z.offset_nanoseconds_with_provider(&p)?
+                ))
+            });
+            Some(render(r, |s| s))
+        }
+        "tz_conv" => {
+            // ZonedDateTime -> PlainDate / PlainTime / PlainDateTime: three separate conversions of one instant
+            let (tz, p) = zone_of(t[1]);
+            let r = zdt(&tz, i(t[2])).and_then(|z| {
+                let d = z.to_plain_date_with_provider(&p)?;
+                let tm = z.to_plain_time_with_provider(&p)?;
+                let dt = z.to_plain_datetime_with_provider(&p)?;
+                Ok(format!(
+                    "{} {} {} | {} {} {} {} {} {} | {} {} {} {} {} {} {} {} {}",
+                    d.iso_year(), d.iso_month(), d.iso_day(),
+                    tm.hour(), tm.minute(), tm.second(), tm.millisecond(), tm.microsecond(), tm.nanosecond(),
+                    dt.iso_year(), dt.iso_month(), dt.iso_day(), dt.hour(), dt.minute(), dt.second(), dt.millisecond(), dt.microsecond(), dt.nanosecond()
                 ))
             });
             Some(render(r, |s| s))
